@@ -29,7 +29,7 @@ try:
         res["compiler_tests_with"] = r.stdout.strip().splitlines()[-1]
     res["demo_with"] = run_demo()
     for p in props:
-        r = subprocess.run(["/verif/verif", "check", p, "--budget", budget], env=dict(os.environ, VERIF_REPO=wt), stdout=subprocess.PIPE, stderr=subprocess.DEVNULL, text=True)
+        r = subprocess.run([os.environ.get("VERIF_HOME", "/verif") + "/verif", "check", p, "--budget", budget], env=dict(os.environ, VERIF_REPO=wt), stdout=subprocess.PIPE, stderr=subprocess.DEVNULL, text=True)
         lines = [l.strip() for l in r.stdout.splitlines() if l.startswith("VIOLATION") or l.startswith("  class") or l.startswith("INFRA")]
         res["check_" + p] = "exit=%d %s" % (r.returncode, " | ".join(l for l in lines if l.startswith("class"))[:600])
 finally:
